@@ -10,7 +10,8 @@ From Coq Require Import List Arith Bool.
 Import ListNotations.
 From YV Require Import gen.Gen_ready_c13 model.Await model.AwaitObs proofs.AwaitProofs proofs.AwaitSteps proofs.AwaitThms.
 
-(* The readiness rule was read from the source and is the sound one (await_ready <-> word == kResult). *)
+(* The readiness rule (and PromiseType::Impl) were read from the source, recognised, and the rule is the sound one
+   (await_ready <-> word == kResult). *)
 Example c13_ready_rule_from_source : c13_ready_rule_recognised = true /\ c13_ready_is_result = true.
 Proof. split; reflexivity. Qed.
 
@@ -144,7 +145,7 @@ Print Assumptions c13_await_ready_sound.
    does not suspend and reads a Result that was never constructed.  (The trace is the one the pre-fix library produces.) *)
 Example c13_await_ready_sound_old_rule_refuted :
   exists tr s co r,
-    run_g false (init [OX true false 0; OC false false 0; OC false false 1]
+    run_g false true (init [OX true false 0; OC false false 0; OC false false 1]
                       [CO [PCo 0 false] 1; CO [PCo 0 false] 2] 1) tr = Some s /\
     nth_error (cos s) 1 = Some co /\ resumes co = [r] /\
     rhow r = BySelf /\ rok r = false /\ rval r = Some None /\ readys co = [(true, false)].
@@ -154,17 +155,30 @@ Proof.
   eexists. eexists. eexists. vm_compute. repeat split.
 Qed.
 
-(* S5 (reported, not judged here: the property text names no executor for the inline forms).  Two coroutines co_await one
-   RunShared(x1, ...) future: PromiseType::Impl swaps executors with the completing core, so the callback fired first
-   takes x1 and leaves its own Inline behind, which the second one then takes.  Trace of the real library. *)
-Example c13_s5_observation :
+(* S5 (DESIGN 6; the property text names no executor for the inline forms, so this is an observation, not a C13 clause).
+   Two coroutines co_await one RunShared(x1, ...) future.  With the PromiseType::Impl the source had before commit f1ffb7c
+   (`_executor = std::move(caller._executor)`, a swap: [sw = true]) the callback fired first takes x1 and leaves its own
+   Inline behind, which the second one then takes: CurrentExecutor() = x1 and Inline.  (Trace of the library at 86343e2.) *)
+Example c13_s5_swap_observation :
+  exists s c0 c1 r0 r1,
+    run_g true true
+        (init [OX true false 1; OC false false 0; OC false false 1] [CO [PCo 0 false] 1; CO [PCo 0 false] 2] 2)
+        [ESpawn 0 0; EBegin 0 0; ELd 0 0 OE; ELd 0 0 OE; ECas 0 0 true; ESpawn 0 1; EBegin 0 1; ELd 0 0 OL; ELd 0 0 OL;
+         ECas 0 0 true; ESet 0 0 (RVal 7); EXchg 0 0; ERes 0 1; ERet 0 1 (RVal 101); ELocal 0 1; EXchg 0 2; ERes 0 0;
+         ERet 0 0 (RVal 100); ELocal 0 0; EXchg 0 1; EFree 0 0; EFree 0 1] = Some s /\
+    nth_error (cos s) 0 = Some c0 /\ nth_error (cos s) 1 = Some c1 /\ resumes c0 = [r0] /\ resumes c1 = [r1] /\
+    rown r0 = 0 /\ rown r1 = 0 /\ rexec r1 = 1 /\ rexec r0 = 0 /\ quiescent s = true.
+Proof. do 5 eexists. vm_compute. repeat split. Qed.
+
+(* The same run with the Impl found in the current source (read by the translator): *)
+Example c13_s5_current_source :
   exists s c0 c1 r0 r1,
     run (init [OX true false 1; OC false false 0; OC false false 1] [CO [PCo 0 false] 1; CO [PCo 0 false] 2] 2)
         [ESpawn 0 0; EBegin 0 0; ELd 0 0 OE; ELd 0 0 OE; ECas 0 0 true; ESpawn 0 1; EBegin 0 1; ELd 0 0 OL; ELd 0 0 OL;
          ECas 0 0 true; ESet 0 0 (RVal 7); EXchg 0 0; ERes 0 1; ERet 0 1 (RVal 101); ELocal 0 1; EXchg 0 2; ERes 0 0;
          ERet 0 0 (RVal 100); ELocal 0 0; EXchg 0 1; EFree 0 0; EFree 0 1] = Some s /\
     nth_error (cos s) 0 = Some c0 /\ nth_error (cos s) 1 = Some c1 /\ resumes c0 = [r0] /\ resumes c1 = [r1] /\
-    rown r0 = 0 /\ rown r1 = 0 /\ rexec r1 = 1 /\ rexec r0 = 0 /\ quiescent s = true.
+    rexec r1 = 1 /\ rexec r0 = (if c13_impl_swaps_executor then 0 else 1) /\ quiescent s = true.
 Proof. do 5 eexists. vm_compute. repeat split. Qed.
 
 (* Non-vacuity: complete runs of the real implementation (FIBER backend), replayed. *)
